@@ -189,10 +189,10 @@ RowCases(n) ==
 ExtractCases(n, BA) ==
   { [fn |-> "extract", cls |-> cls, logs |-> <<a, b, <<>> >>, state |-> s, times |-> t]
     : cls \in {"task", "component"}, a \in [1..n -> TaskAlphabet], b \in [1..(n - 1) -> BA],
-      s \in TaskAlphabet, t \in {<<>>, <<0>>, <<1>>, <<0, 1>>, <<1, 2>>, <<n - 1>>, <<n>>, <<0, n + 3>>} }
+      s \in TaskAlphabet, t \in {<<>>, <<0>>, <<1>>, <<0, 1>>, <<1, 2>>, <<0, 2>>, <<2, 0>>, <<n - 1>>, <<n>>, <<0, n + 3>>} }
   \cup { [fn |-> "extract", cls |-> cls, logs |-> <<a, b, <<>> >>, state |-> s, times |-> t]
     : cls \in {"worker", "facility"}, a \in [1..n -> ResAlphabet], b \in [1..(n - 1) -> ResAlphabet],
-      s \in {"FREE", "WORKING"}, t \in {<<>>, <<0>>, <<1>>, <<0, 1>>, <<1, 2>>, <<n - 1>>, <<n>>} }
+      s \in {"FREE", "WORKING"}, t \in {<<>>, <<0>>, <<1>>, <<0, 1>>, <<1, 2>>, <<0, 2>>, <<n - 1>>, <<n>>} }
 LastDateCases ==
   { [fn |-> "lastdate", time |-> tm, unit |-> u, last |-> d]
     : tm \in 0..5, u \in {1, 60, 86400}, d \in {0, 86400, 1000000} }
@@ -238,7 +238,8 @@ Family(name, tier) ==
                                           <<0, 3, 30>>, <<5, 6, 7>>})
     [] name = "sub"   -> IF tier = 1 THEN FamSub({1, 2, 3, 5, 60}, {<<>>, <<1>>})
                          ELSE FamSub({1, 2, 3, 5, 7, 60}, {<<>>, <<1>>, <<0, 2>>, <<3, 4>>})
-    [] name = "pert"  -> IF tier = 1 THEN FamPert(3, {0, 1, 2}) ELSE FamPert(4, {0, 1, 2})
+    [] name = "pert"  -> IF tier = 1 THEN FamPert(3, {0, 1, 2}) \cup FamPert(4, {1, 2})
+                         ELSE FamPert(4, {0, 1, 2}) \cup FamPert(5, {1})
     [] name = "place" -> IF tier = 1 THEN FamPlace({2, 3}, {1, 2}, {0, 1, 2}, {<<>>, <<2>>})
                          ELSE FamPlace({2, 3, 4}, {1, 2}, {0, 1, 2}, {<<>>, <<2>>})
     \* flat products whose components carry one task each (no known placement finding applies)
